@@ -98,6 +98,23 @@ def case_strategy(draw, allow_rle=False):
     if rle is not None:
         case["rle"] = rle
         del case["pred"], case["ref"]
+    # label values: in a quarter of the cases an injective renaming into wide value classes (jointly for matched
+    # input), stored in a dtype that is wide enough - possibly only just
+    if rle is None and draw(st.integers(0, 3)) == 0:
+        cls = ("small", "near8", "over8", "mult256", "near16", "over16")
+        pl = [int(x) for x in np.unique(pred) if x]
+        rl = [int(x) for x in np.unique(ref) if x]
+        if it == "MATCHED_INSTANCE":
+            mp = draw(gen.injective_relabel(sorted(set(pl) | set(rl)), cls))
+            pm, rm = {l: mp[l] for l in pl}, {l: mp[l] for l in rl}
+        else:
+            pm, rm = draw(gen.injective_relabel(pl, cls)), draw(gen.injective_relabel(rl, cls))
+        mx = max(list(pm.values()) + list(rm.values()) + [1])
+        case["pred"] = gen.apply_relabel(pred, pm, "int64").tolist()
+        case["ref"] = gen.apply_relabel(ref, rm, "int64").tolist()
+        dts = gen.unsigned_at_least(mx) + (gen.signed_at_least(mx) if it == "SEMANTIC" else [])
+        case["dtype"] = dts[0] if draw(st.booleans()) else draw(st.sampled_from(dts))
+        case["relabelled"] = True
     # dimensions that must not matter for the quantities compared here: memory layout, logging/timing flags,
     # the edge-case handler (tp>0) and the selection of global metrics
     case["layout"] = draw(st.sampled_from(["C", "C", "C", "F", "neg", "T"]))
@@ -198,6 +215,8 @@ def check(case, stats):
         classes.append("primed_with_other_objects")
     if len(mets) < 4:
         classes.append(f"instance_metrics={len(mets)}")
+    if case.get("relabelled"):
+        classes.append("wide_label_values")
     if cfg.get("matcher"):
         classes.append(f"mmetric={cfg['matcher']['metric']}")
         thr = cfg["matcher"]["thr"]
